@@ -104,6 +104,13 @@ def _run_badoption(case):
         ("tg.crop(mode=bogus)", tg, lambda: tg.crop(0.0, 5.0, "bogus", False)),
         ("tg.insertSpace(collisionMode=bogus)", tg, lambda: tg.insertSpace(1.0, 2.0, "bogus")),
         ("tg.validate(bogus)", tg, lambda: tg.validate("bogus")),
+        ("replaceTier(reportingMode=bogus)", tg, lambda: tg.replaceTier(tg.tierNames[0], core.mk_tier(dict(specs[1], name="zz"), sc), "bogus")),
+        ("replaceTier(same name, reportingMode=bogus)", tg, lambda: tg.replaceTier(tg.tierNames[-1], core.mk_tier(dict(specs[1], name=tg.tierNames[-1]), sc), "bogus")),
+        ("tg.editTimestamps(reportingMode=bogus)", tg, lambda: tg.editTimestamps(1.0, "bogus")),
+        ("tg.save(format=bogus)", tg, lambda: tg.save(os.path.join(core.VERIF, ".work", "never-written.TextGrid"), "bogus", True)),
+        ("tg.save(reportingMode=bogus)", tg, lambda: tg.save(os.path.join(core.VERIF, ".work", "never-written.TextGrid"), "short_textgrid", True, reportingMode="bogus")),
+        ("renameTier(missing)", tg, lambda: tg.renameTier("no-such-tier", "zz")),
+        ("removeTier(missing)", tg, lambda: tg.removeTier("no-such-tier")),
     ]
     for c in calls:
         if c is None:
